@@ -768,9 +768,10 @@ pub fn run_loop(
 // away for a while (so that several entries are due at once): was the silence reported in
 // that pass, and what is queued afterwards.
 // ---------------------------------------------------------------------------------
-pub fn heartbeat_pass(interval_ms: u64, queued: usize, away_ms: u64) -> (bool, bool, usize) {
+pub fn heartbeat_pass(interval_ms: u64, queued: usize, away_ms: u64) -> (bool, bool, usize, u64) {
     let mut inner = Inner::new(HeartbeatTimers::default(), 1);
     inner.outbuf.clear();
+    let started = std::time::Instant::now();
     inner
         .heartbeats
         .start(std::time::Duration::from_millis(interval_ms));
@@ -778,11 +779,14 @@ pub fn heartbeat_pass(interval_ms: u64, queued: usize, away_ms: u64) -> (bool, b
         inner.outbuf.append(raw_buf(vec![0u8; queued]));
     }
     std::thread::sleep(std::time::Duration::from_millis(away_ms));
+    // how long the thread was really away (a loaded machine oversleeps)
+    let away = started.elapsed().as_millis() as u64;
     let r = inner.process_heartbeat_timers();
     (
         matches!(r, Err(Error::MissedServerHeartbeats)),
         r.is_ok(),
         inner.outbuf.len(),
+        away,
     )
 }
 
